@@ -86,10 +86,13 @@ def run(ck, prog):
 
 def _dict_rows(ck, f, code, ref, slot):
     construct = SEQ_PATH + ":Sequence.amino_acid_fraction"
-    if len(code) != 1 or len(ref) != 1 or not isinstance(code[0][1], dict):
-        ck.ob("FOLD-ALG", construct, False, expected="one table of 20 fractions", found=repr(code)[:200], slot=slot,
-              where=f.loc())
-        return
+    if len(code) != 1:
+        # paths that cannot happen for a sequence over the twenty letters (N is the sum of the twenty counts) are dropped exactly
+        from lcsa.dt import feasible_with
+        from lcsa.lin import Lin
+        ident = [Lin(dict({"cnt[%s]" % L: 1 for L in LETTERS}, N=-1), 0, "==")] + [Lin({"cnt[%s]" % L: -1}, 0, "<=") for L in LETTERS]
+        code = [(c, o) for c, o in code if feasible_with(c, ident, {"N"}) is not None]
+    ck.shape(len(code) == 1 and len(ref) == 1 and isinstance(code[0][1], dict), "amino_acid_fraction: one reachable path returning a table (%d paths)" % len(code), f.loc())
     c, r = code[0][1], ref[0][1]
     ck.ob("FOLD-ALG", construct, set(c) == set(r), expected=sorted(r), found=sorted(c), slot="keys", where=f.loc())
     for L in sorted(r):
